@@ -119,3 +119,6 @@ OWN_STATE_INPLACE = {
     'utils.sensors.Sensors.__init__': 'calls generate on arrays generated by the object itself',
     'utils.sensors.Sensors.generate': 'adds noise in place to arrays it has just computed',
 }
+
+# callables allowed to return an object that is shared between calls (none in the current tree)
+SHARED_RETURN_OK = set()
